@@ -11,6 +11,8 @@
  *   REG inaddr <path> <host|%00> <service|%00>
  *   LOAD <file>             conf_read(); prints "LOAD rc=<n>"
  *   FDS                     prints "FDS n=<open file descriptors>"
+ *   FLOAD <mode> <at> <file>  conf_read() while the environment misbehaves once (see the fault section below);
+ *                           prints "LOAD rc=<n>" and "FAULT fired=<n>"
  *   DUMP                    canonical dump of the live tree (values hex-encoded)
  *   COPY <src> <dst>        overwrite the file dst in place with the content of src
  *   SNAP / SAME             remember the dump / compare the current dump with it
@@ -28,6 +30,65 @@
 struct event_base *ev_base;
 struct evdns_base *ev_dns;
 int clean_exit;
+
+/* ---- a file read that misbehaves ----------------------------------------------
+ * The harness is linked with -Wl,--wrap=fread,--wrap=read: every fread() / read() CALL in the repository's objects (the C
+ * library's own internal reads are not touched) comes through here.  While a fault is armed (FLOAD only), the first call
+ * that asks for more than <at> bytes is served the way the C library / the kernel may legitimately serve it:
+ *   eintr   fread delivers the <at> bytes it has, sets the stream's error flag and errno = EINTR (a signal cut the read)
+ *   eio     the same with errno = EIO (dying disk, stale NFS handle)
+ *   eof     fread delivers <at> bytes and reports end of file, also on later calls (the file shrank after fstat)
+ *   rd      read(2) returns <at> bytes (short read), the next read(2) fails with EINTR, then all is normal
+ *   stale   nothing fails; errno is EAGAIN when the load starts (what the daemon's non-blocking reads leave behind)
+ *   stalei  nothing fails; errno is EINTR when the load starts (a signal woke the event loop)
+ * Everything after the one fault passes through, so a reader that retries correctly gets the whole file.
+ */
+size_t __real_fread(void *ptr, size_t size, size_t nmemb, FILE *stream);
+ssize_t __real_read(int fd, void *buf, size_t count);
+static int fault_mode;          /* 0 none, 1 eintr, 2 eio, 3 eof, 4 rd */
+static size_t fault_at;
+static int fault_state;         /* 0 armed, 1 fired (rd: EINTR pending), 2 over */
+static unsigned int fault_fired;
+
+size_t __wrap_fread(void *ptr, size_t size, size_t nmemb, FILE *stream)
+{
+    size_t got;
+
+    if (fault_mode < 1 || fault_mode > 3 || !size)
+        return __real_fread(ptr, size, nmemb, stream);
+    if (fault_mode == 3 && fault_state == 1) {
+        stream->_flags |= 0x10; /* _IO_EOF_SEEN */
+        return 0;
+    }
+    if (fault_state != 0 || size * nmemb <= fault_at)
+        return __real_fread(ptr, size, nmemb, stream);
+    got = fault_at ? __real_fread(ptr, 1, fault_at, stream) : 0;
+    fault_state = (fault_mode == 3) ? 1 : 2;
+    fault_fired++;
+    if (fault_mode == 3) {
+        stream->_flags |= 0x10;
+    } else {
+        stream->_flags |= 0x20; /* _IO_ERR_SEEN */
+        errno = (fault_mode == 1) ? EINTR : EIO;
+    }
+    return got / size;
+}
+
+ssize_t __wrap_read(int fd, void *buf, size_t count)
+{
+    if (fault_mode != 4 || fault_state == 2 || fd < 3)
+        return __real_read(fd, buf, count);
+    if (fault_state == 0) {
+        if (count <= fault_at)
+            return __real_read(fd, buf, count);
+        fault_state = 1;
+        fault_fired++;
+        return fault_at ? __real_read(fd, buf, fault_at) : (errno = EINTR, fault_state = 2, -1);
+    }
+    fault_state = 2;
+    errno = EINTR;
+    return -1;
+}
 
 /* ---- small helpers --------------------------------------------------------- */
 
@@ -350,6 +411,20 @@ static int run_command(char *line)
         char *f = pct_decode(argv[1], NULL);
         int rc = conf_read(f);
         printf("LOAD rc=%d\n", rc);
+        free(f);
+    } else if (!strcmp(argv[0], "FLOAD") && argc >= 4) {
+        char *f = pct_decode(argv[3], NULL);
+        int rc, pre = 0;
+        fault_at = (size_t)strtoul(argv[2], NULL, 10);
+        fault_state = 0;
+        fault_fired = 0;
+        fault_mode = !strcmp(argv[1], "eintr") ? 1 : !strcmp(argv[1], "eio") ? 2 : !strcmp(argv[1], "eof") ? 3 : !strcmp(argv[1], "rd") ? 4 : 0;
+        if (!strcmp(argv[1], "stale")) pre = EAGAIN;
+        if (!strcmp(argv[1], "stalei")) pre = EINTR;
+        errno = pre;
+        rc = conf_read(f);
+        fault_mode = 0;
+        printf("LOAD rc=%d\nFAULT fired=%u\n", rc, fault_fired);
         free(f);
     } else if (!strcmp(argv[0], "FDS")) {
         /* FDS: how many file descriptors are open (a load opens the file and closes it again) */
